@@ -666,6 +666,12 @@ func (p *Path) visitInstr(fr *frame, instr ssa.Instruction) continuation {
 		idx := fr.get(instr.Index).(*Term)
 		switch x := x.(type) {
 		case []Value:
+			if !idx.IsConst() && len(x) > p.h.MaxConcretize {
+				if se := p.symElemAddr(x, idx, instr.Index.Type(), instr.Pos()); se != nil {
+					fr.env[instr] = se
+					break
+				}
+			}
 			i := p.indexCheck(idx, len(x), instr.Index.Type(), instr.Pos())
 			fr.env[instr] = &x[i]
 		case *Value:
@@ -673,6 +679,12 @@ func (p *Path) visitInstr(fr *frame, instr ssa.Instruction) continuation {
 				p.targetPanicStr("runtime error: invalid memory address or nil pointer dereference")
 			}
 			arr := (*x).(ArrayV)
+			if !idx.IsConst() && len(arr) > p.h.MaxConcretize {
+				if se := p.symElemAddr(arr, idx, instr.Index.Type(), instr.Pos()); se != nil {
+					fr.env[instr] = se
+					break
+				}
+			}
 			i := p.indexCheck(idx, len(arr), instr.Index.Type(), instr.Pos())
 			fr.env[instr] = &arr[i]
 		case Poison:
@@ -685,6 +697,12 @@ func (p *Path) visitInstr(fr *frame, instr ssa.Instruction) continuation {
 		idx := fr.get(instr.Index).(*Term)
 		switch x := x.(type) {
 		case ArrayV:
+			if !idx.IsConst() && len(x) > p.h.MaxConcretize {
+				if se := p.symElemAddr(x, idx, instr.Index.Type(), instr.Pos()); se != nil {
+					fr.env[instr] = p.selectElem(se)
+					break
+				}
+			}
 			i := p.indexCheck(idx, len(x), instr.Index.Type(), instr.Pos())
 			fr.env[instr] = x[i]
 		case StringV:
